@@ -11,7 +11,7 @@ interleavings on the real atomics (the theorem covers them on the model; the run
 ID = 'C18'
 GEN_DEPS = []
 RULE = ('(a) every placement of the interrupt relative to the k-th poll of the accept loop (before it / between load and swap / between swap and re-check / after it), '
-        'k = 1..4 with reactor wakes before it, exhaustively; (b) wait-group histories of 0-6 sessions with polls anywhere and any completion order; '
+        'k = 1..4 with reactor wakes before it, exhaustively, and with a connection waiting at any subset of the polls (the loop under load); (b) wait-group histories of 0-6 sessions with polls anywhere, any completion order, and sessions ending INSIDE a poll at the n-th touch of the waker (a touch-counting waker: clone / wake / wake_by_ref / drop); '
         '(c) the real howl in a child process under a real SIGINT with 0-3 keep-alive sessions closed in every order, one of them possibly after a handler panic; '
         'non-trivial = the interrupt lands inside a poll (points 1, 2) or the history has a poll while a session is alive; exhaustive for (a)')
 ASSUMPTIONS = ['the handler body runs atomically at the chosen scheduling point (the theorem no_lost_wakeup covers every finer interleaving on the model)',
@@ -24,6 +24,13 @@ def corpus():
         for at in (0, 1, 2, 3):
             out.append({'case': {'polls': [None] * k + [at] + [None, None]}, 'stream': 'interleaving'})
     out.append({'case': {'polls': [None, None, None]}, 'stream': 'interleaving'})
+    # under load: a connection is waiting when a poll begins (the loop's `accept()` is ready), before / at / after the interrupt, in every combination over 4 polls
+    import itertools as _it
+    for k in range(0, 3):
+        for at in (0, 1, 2, 3):
+            for conn in _it.product([False, True], repeat=k + 3):
+                if any(conn) and not (conn[k] and at in (1, 2)): out.append(          # (a poll that finds a connection returns before the points 1 and 2)
+                    {'case': {'polls': [None] * k + [at] + [None, None], 'conn': list(conn)}, 'stream': 'under-load'})
     # the accept loop polled with a different waker on later polls (the future moved to another task): the interrupt must wake the latest one
     for k in range(1, 4):
         for at in (0, 1, 2, 3):
@@ -40,6 +47,10 @@ def corpus():
     # the process was started with SIGINT ignored (background job of a non-interactive shell): the interrupt must still be honoured
     out.append({'case': {'howl': {'sessions': 1, 'order': [0], 'signal': True, 'ignored': True}}, 'stream': 'howl'})
     out.append({'case': {'howl': {'sessions': 0, 'order': [], 'signal': True, 'ignored': True}}, 'stream': 'howl'})
+    for n in (1, 2, 3, 4):           # the last session ends inside the final poll, at the n-th touch of the waker
+        out.append({'case': {'wg': ['add', 'poll@%d' % n, 'poll']}, 'stream': 'waitgroup'})
+        out.append({'case': {'wg': ['add', 'add', 'poll', 'done', 'poll@%d' % n, 'poll', 'poll']}, 'stream': 'waitgroup'})
+    out.append({'case': {'wg': ['add', 'poll', 'done']}, 'stream': 'waitgroup'})          # nobody polls after the last session ended: the task must already be woken
     out.append({'case': {'wg': ['add', 'poll', 'drop', 'poll']}}); out.append({'case': {'wg': ['add', 'add', 'drop', 'poll', 'done', 'poll']}})
     out.append({'case': {'wg': ['poll']}}); out.append({'case': {'wg': ['add', 'poll', 'done', 'poll']}})
     out.append({'case': {'wg': ['add', 'add', 'done', 'poll', 'done', 'poll', 'poll']}})
@@ -55,6 +66,7 @@ def generate(rng, tier):
             r = rng.random()
             if r < 0.35: ops.append('add'); live += 1
             elif r < 0.65 and live: ops.append(rng.choice(['done', 'done', 'drop'])); live -= 1          # 'drop': the session task unwound, its handle was dropped
+            elif live and r < 0.8: ops.append('poll@%d' % rng.choice([1, 1, 1, 2, 3, 4])); live -= 1          # a session ends inside the poll, at the n-th touch of the waker (if the poll touches it that often: `fired` says)
             else: ops.append('poll')
         while live and rng.random() < 0.7: ops.append(rng.choice(['done', 'drop'])); live -= 1
         ops.append('poll')
@@ -73,19 +85,42 @@ def spec_check(case, out):
         if not out.get('returned_after_all'): return f'howl did not return within 3 s after the last session ended ({sc})'
         return None
     if 'wg' in case:
-        live, want = 0, []
+        # ready exactly when no session is alive; a poll that returns Pending once every session has ended — the last one may end INSIDE the
+        # poll, at any touch of the waker — must leave the task woken, or nobody will ever poll it again; and the poll after that is Ready
+        live, res, last = 0, out['polls'], None
+        i = 0
         for o in case['wg']:
             if o == 'add': live += 1
             elif o in ('done', 'drop'): live -= 1
-            else: want.append(live == 0)
-        return None if out['polls'] == want else f'wait group polls {out["polls"]}, sessions alive say {want}'
+            else:
+                r = res[i]; i += 1
+                before = live
+                if r.get('fired'): live -= 1
+                if r['ready'] and live != 0: return f'wait group poll {i} is Ready while {live} session(s) are alive'
+                if not r['ready'] and before == 0: return f'wait group poll {i} is Pending although no session is alive'
+                if not r['ready'] and live == 0 and not r['woken']:
+                    return f'wait group poll {i} ({o}): the last session ended inside the poll, the poll returned Pending and nobody woke the task (lost wake-up: howl never returns)'
+                last = r
+        if last is not None and not last['ready'] and live == 0 and not out.get('final_woken'):
+            return 'every session has ended after the last poll returned Pending, and the task was never woken (howl never returns)'
+        return None
     ps, res = case['polls'], out['polls']
+    conn = case.get('conn') or []
+    isconn = lambda i: i < len(conn) and conn[i]
     k = next((i for i, p in enumerate(ps) if p is not None), None)
     if k is None:
         return 'returned None without an interrupt' if any(r['ready_none'] for r in res) else None
     if any(r['ready_none'] for r in res[:k]): return 'returned None before the interrupt'
     if len(res) <= k: return 'missing poll'
+    # the server stops accepting: a poll that BEGINS after the interrupt was delivered takes no connection, ready or not
+    delivered_before = k if ps[k] == 0 else k + 1
+    for i, r in enumerate(res):
+        if i >= delivered_before and r.get('accepted'): return f'poll {i + 1} began after the interrupt had been delivered and still accepted a connection (under load the server never stops accepting)'
     if res[k]['ready_none']: return None if ps[k] != 3 else 'returned None before the interrupt (it lands after the poll)'
+    if isconn(k) and res[k].get('accepted'):
+        # the connection was taken by a poll that began before the interrupt: fine; the next poll must return None
+        if len(res) <= k + 1 or not res[k + 1]['ready_none']: return 'the poll after the interrupt did not return None'
+        return None
     # the poll returned Pending with the interrupt delivered: the task must have been woken, and the next poll must return None
     if not res[k]['woken']: return f'interrupt at point {ps[k]} of poll {k + 1}: the poll returned Pending and nobody woke the task (lost wake-up)'
     if len(res) <= k + 1 or not res[k + 1]['ready_none']: return 'woken after the interrupt but the next poll did not return None'
@@ -111,6 +146,7 @@ def nontrivial(case):
             if o == 'add': live += 1
             elif o in ('done', 'drop'): live -= 1
             elif live: return True
+            if o.startswith('poll@'): live -= 1
         return False
     return any(p in (1, 2) for p in case['polls'])
 
